@@ -659,6 +659,31 @@ func (i *interpreter) registerReflect() {
 		}
 		return cur
 	})
+	// sort.Slice / SliceStable use reflectlite to swap: insertion sort over the cells (stable)
+	sortSlice := func(fr *frame, args []value) value {
+		x := args[0].(iface)
+		s, ok := x.v.([]value)
+		if !ok {
+			abandon("sort.Slice of %T", x.v)
+		}
+		less := args[1]
+		for a := 1; a < len(s); a++ {
+			for b := a; b > 0; b-- {
+				r := fr.i.call(fr, fr.callpos, less, []value{b, b - 1})
+				lt, isB := r.(bool)
+				if !isB {
+					lt = fr.truth(r, "if")
+				}
+				if !lt {
+					break
+				}
+				s[b], s[b-1] = s[b-1], s[b]
+			}
+		}
+		return nil
+	}
+	in["sort.Slice"] = sortSlice
+	in["sort.SliceStable"] = sortSlice
 	// pure helpers of package reflect that run as ordinary code
 	for _, n := range []string{"(reflect.StructTag).Get", "(reflect.StructTag).Lookup", "(reflect.Kind).String", "(*reflect.ValueError).Error"} {
 		i.reflectNative[n] = true
